@@ -78,7 +78,9 @@ Section Dump.
         bs "redacted=" ++ show_bool (e_redacted e);
         bs "unsigned=" ++ show_raw (f_unsigned e);
         bs "check=" ++ (if check_fields e then bs "ok" else bs "err");
-        bs "json=" ++ pct (canon_print (e_json e)) ].
+        bs "json=" ++ pct (canon_print (e_json e));
+        (* read-only accessors leave the event value as it is (after EventID() filled its cache) *)
+        bs "pure=ok" ].
 
   (* ---------- arguments ---------- *)
   Definition parse_idlist (t : bytes) : option idlist :=
@@ -321,6 +323,7 @@ Definition check_reparsed (name : bytes) (built : list bytes) (out : bytes) : op
   | None =>
       if negb (field_is (bs "redacted") (bs "false") s) then Some (name ++ bs ":redacted")
       else if negb (field_is (bs "check") (bs "ok") s) then Some (name ++ bs ":check")
+      else if negb (field_is (bs "pure") (bs "ok") s) then Some (name ++ bs ":an accessor changed the event")
       else None
   end.
 
@@ -336,6 +339,7 @@ Definition prop_roundtrip (args : list bytes) : bytes :=
         | None =>
             if negb (field_is (bs "redacted") (bs "false") built) then fail (bs "built:redacted")
             else if negb (field_is (bs "check") (bs "ok") built) then fail (bs "built:check")
+            else if negb (field_is (bs "pure") (bs "ok") built) then fail (bs "built:an accessor changed the event")
             else match check_reparsed (bs "untrusted") built out with
                  | Some k => fail k
                  | None =>
@@ -380,6 +384,7 @@ Fixpoint check_edit_sections (ver : bytes) (v12 : bool) (built : list bytes) (ou
                     end) then Some (n ++ bs ":reid")
       else if v12 && negb (same_field (bs "room") built s) then Some (n ++ bs ":room")
       else if v12 && negb (same_field (bs "auth") built s) then Some (n ++ bs ":auth")
+      else if negb (field_is (bs "pure") (bs "ok") s) then Some (n ++ bs ":an accessor changed the event")
       else check_edit_sections ver v12 built out r
   end.
 
@@ -404,6 +409,7 @@ Definition prop_edits (args : list bytes) : bytes :=
         let v12 := domainless ver in
         let create := bytes_eqb type create_type && bytes_eqb skflag (bs "1") && bytes_eqb skey [] in
         if negb (id_alphabet_ok ver id) then fail (bs "alphabet")
+        else if negb (field_is (bs "pure") (bs "ok") built) then fail (bs "built:an accessor changed the event")
         else if match section (bs "set_unsigned") out with [l] => bytes_eqb l (bs "err") | _ => false end then ok
         else
           match check_edit_sections ver v12 built out edit_sections with
@@ -475,7 +481,9 @@ Fixpoint has_infix (p s : bytes) : bool :=
   end.
 Definition prop_untrusted (args : list bytes) : bytes :=
   match rev args with
-  | out :: _ => if has_infix PANIC out then fail (bs "an accepted event crashes an accessor or Redact") else ok
+  | out :: _ => if has_infix PANIC out then fail (bs "an accepted event crashes an accessor or Redact")
+                else if has_infix (bs "pure=CHANGED") out then fail (bs "a read-only accessor changed the event")
+                else ok
   | [] => bs "badargs"
   end.
 
